@@ -11,7 +11,7 @@ use flsrc::search::Searcher;
 use refchess::{Color, Kind, Mv, Pos};
 use serde_json::{json, Value};
 
-pub const RULE: &str = "two families, preconditions constructed and verified with the reference: (M) positions where the mover has >=1 mating move (heavy-piece vs exposed-king constructions, retractions of one move from generated checkmates, perturbed mate shapes incl. back-rank/smothered/pawn/promotion mates, plus whatever the general mixture contains), searched with find_best_move on a fresh Searcher at depth 1..4: the returned move must be in Mates(p) = legal moves after which the opponent is in check with no legal move; Part 'grid-mates' (enumerated; quick tier: a seed-dependent stratified share, thorough: all): items of the check-geometry grid with one of their checking moves turned into a mate by boxing the checked king in with men of its own side (kept only when the reference confirms the mate): mates by en-passant capture (direct and through the captured pawn's square), castling, promotion and under-promotion, discovery by every kind of blocker, and every single man, searched at depth 1..3; the rare kinds (and an eighth of the others) once more with a temptation on the board — an enemy queen or rook the mover could simply take. Part 'corner-mates' (enumerated; quick tier a seed-dependent twelfth): the defending king in a corner with at most one man of its own next to it, the attacking king two or three squares away, one or two attacking minor pieces — every such position with a mate in one (family M) or, defender to move, with a mix of moves that do and do not allow one (family D): the material without pawns, rooks and queens. (D) positions where some legal moves allow a mate in one and at least one does not, searched at depth 2..3: the returned move must not be in Allows(p) = { m : Mates(p·m) != {} }. Positions whose search exceeds the node watchdog are excluded and counted. Non-trivial: (M) >=2 legal moves and >=1 non-mating move; (D) >=3 legal moves (both classes non-empty by construction); distinct by (FEN, depth).";
+pub const RULE: &str = "two families, preconditions constructed and verified with the reference: (M) positions where the mover has >=1 mating move (heavy-piece vs exposed-king constructions, retractions of one move from generated checkmates, perturbed mate shapes incl. back-rank/smothered/pawn/promotion mates, plus whatever the general mixture contains), searched with find_best_move on a fresh Searcher at depth 1..4: the returned move must be in Mates(p) = legal moves after which the opponent is in check with no legal move; Part 'grid-mates' (enumerated; quick tier: a seed-dependent stratified share, thorough: all): items of the check-geometry grid with one of their checking moves turned into a mate by boxing the checked king in with men of its own side (kept only when the reference confirms the mate): mates by en-passant capture (direct and through the captured pawn's square), castling, promotion and under-promotion, discovery by every kind of blocker, and every single man, searched at depth 1..3; the rare kinds (and an eighth of the others) once more with a temptation on the board — an enemy queen or rook the mover could simply take. Part 'only-castle-mates': a seeded search (1 000 000 trials quick) for positions in which castling is the ONLY mate in one (enemy king near the castled king's square, two to five further men of the mover, up to two enemy men of which one is a rook or queen that can often be taken), each searched at depth 1, 2 and 3. Part 'corner-mates' (enumerated; quick tier a seed-dependent twelfth): the defending king in a corner with at most one man of its own next to it, the attacking king two or three squares away, one or two attacking minor pieces — every such position with a mate in one (family M) or, defender to move, with a mix of moves that do and do not allow one (family D): the material without pawns, rooks and queens. (D) positions where some legal moves allow a mate in one and at least one does not, searched at depth 2..3: the returned move must not be in Allows(p) = { m : Mates(p·m) != {} }. Positions whose search exceeds the node watchdog are excluded and counted. Non-trivial: (M) >=2 legal moves and >=1 non-mating move; (D) >=3 legal moves (both classes non-empty by construction); distinct by (FEN, depth).";
 
 pub fn mates(p: &Pos) -> Vec<Mv> {
     p.legal_moves().into_iter().filter(|m| p.make(*m).is_mate()).collect()
@@ -389,9 +389,26 @@ fn judge_grid(it: &crate::grid::GridItem, stats: &mut Stats) -> Verdict {
         // mating move, one in eight for the others
         let rare = !matches!(*kind, "direct" | "discovered");
         if rare || (h >> (20 + j)) % 8 == 0 {
-            if let Some(q) = with_temptation(p, *m, h.rotate_left(j as u32 * 7)) {
-                stats.class(&format!("G_mate_by_{}_with_a_free_capture_on_the_board", kind));
-                judge_m(&q, 1 + ((h >> (30 + j)) % 3) as u8, "grid-temptation", stats)?;
+            // castling mates are few (the grid has 24): each gets several temptations, at depth 1 and 2
+            let variants: u64 = if *kind == "castle" { 10 } else { 1 };
+            let mut seen: Vec<Pos> = Vec::new();
+            for v in 0..variants {
+                if let Some(q) = with_temptation(p, *m, h.rotate_left(j as u32 * 7).wrapping_add(v.wrapping_mul(0x9e37_79b9_7f4a_7c15))) {
+                    if seen.contains(&q) {
+                        continue;
+                    }
+                    seen.push(q.clone());
+                    stats.class(&format!("G_mate_by_{}_with_a_free_capture_on_the_board", kind));
+                    if variants > 1 && std::env::var("VERIF_DEBUG").is_ok() {
+                        eprintln!("castle temptation: {} mate {}", q.fen4(), m.uci());
+                    }
+                    if variants > 1 {
+                        judge_m(&q, 1, "grid-temptation", stats)?;
+                        judge_m(&q, 2, "grid-temptation", stats)?;
+                    } else {
+                        judge_m(&q, 1 + ((h >> (30 + j)) % 3) as u8, "grid-temptation", stats)?;
+                    }
+                }
             }
         }
     }
@@ -509,6 +526,75 @@ fn corner_mate_positions() -> Vec<(Pos, bool)> {
     out
 }
 
+/// Positions in which castling is the ONLY mate in one: found by a seeded search — the enemy king
+/// near the castled king's new square, the mover's king and rook at home with the right, two to
+/// five further men of the mover (knights, bishops, pawns, a queen at times) on derived squares and
+/// up to two enemy men (one of them a rook or queen the mover can take: the temptation); kept when
+/// the reference says that the set of mating moves is exactly the castling move.
+pub fn only_castle_mates(seed: u64, trials: u64) -> Vec<Pos> {
+    let mut out: Vec<Pos> = Vec::new();
+    let mut h = seed ^ 0x5bd1_e995_9e37_79b9;
+    let mut next = |n: u64| {
+        h ^= h << 13;
+        h ^= h >> 7;
+        h ^= h << 17;
+        (h >> 11) % n
+    };
+    for t in 0..trials {
+        let kingside = t % 2 == 0;
+        let mut p = Pos::empty();
+        p.stm = Color::W;
+        p.sq[4] = Some((Color::W, Kind::K));
+        if kingside {
+            p.sq[7] = Some((Color::W, Kind::R));
+            p.castle[0] = true;
+        } else {
+            p.sq[0] = Some((Color::W, Kind::R));
+            p.castle[1] = true;
+        }
+        // enemy king two to four ranks up, near the file the rook arrives on
+        let rook_file: i32 = if kingside { 5 } else { 3 };
+        let kf = (rook_file + next(3) as i32 - 1).clamp(0, 7);
+        let kr = 2 + next(3) as i32;
+        let ks = (kr * 8 + kf) as u8;
+        p.sq[ks as usize] = Some((Color::B, Kind::K));
+        let n_own = 2 + next(4);
+        for _ in 0..n_own {
+            let q = next(64) as u8;
+            if p.sq[q as usize].is_some() {
+                continue;
+            }
+            let k = [Kind::N, Kind::N, Kind::B, Kind::P, Kind::P, Kind::P, Kind::Q][next(7) as usize];
+            if k == Kind::P && (q < 8 || q >= 56) {
+                continue;
+            }
+            p.sq[q as usize] = Some((Color::W, k));
+        }
+        let n_enemy = next(3);
+        for i in 0..n_enemy {
+            let q = next(64) as u8;
+            if p.sq[q as usize].is_some() {
+                continue;
+            }
+            let k = if i == 0 { [Kind::R, Kind::Q][next(2) as usize] } else { [Kind::P, Kind::N, Kind::B][next(3) as usize] };
+            if k == Kind::P && (q < 8 || q >= 56) {
+                continue;
+            }
+            p.sq[q as usize] = Some((Color::B, k));
+        }
+        if !p.is_valid() || p.in_check() {
+            continue;
+        }
+        let ms = mates(&p);
+        if ms.len() == 1 && p.info(ms[0]).castle {
+            out.push(p);
+        }
+    }
+    let mirrored: Vec<Pos> = out.iter().map(|p| p.mirror()).collect();
+    out.extend(mirrored);
+    out
+}
+
 pub fn run(tier: Tier, seed: u64, known: &Known) -> PropRun {
     let mut run = PropRun::new("exploration", RULE);
     run.assumptions = vec![
@@ -550,6 +636,27 @@ pub fn run(tier: Tier, seed: u64, known: &Known) -> PropRun {
                 st.class("K_minor_corner_avoidable_mate_in_one");
                 judge_d(&it.0, 2 + (h % 2) as u8, "corner-minor", st)
             }
+        });
+        run.stats.merge(st);
+        if fail.is_some() {
+            run.failure = fail;
+            return run;
+        }
+    }
+    {
+        let items = only_castle_mates(seed, tier.pick(1_000_000, 10_000_000));
+        run.stats.class_n("positions_in_which_castling_is_the_only_mate_found", items.len() as u64);
+        let (st, fail) = crate::runner::run_enumerated("only-castle-mates", &items, threads(), seed, known, |p, st| {
+            eng::set_counter_wish(0, 1);
+            st.class("castling_is_the_only_mate_in_one");
+            let capture_available = p.legal_moves().iter().any(|m| p.info(*m).capture);
+            if capture_available {
+                st.class("castling_is_the_only_mate_in_one_and_a_capture_is_available");
+            }
+            for d in 1..=3u8 {
+                judge_m(p, d, "only-castle-mate", st)?;
+            }
+            Ok(())
         });
         run.stats.merge(st);
         if fail.is_some() {
